@@ -80,14 +80,15 @@ def run_sync(chunks):
     from scrapli.transport.plugins.telnet.transport import PluginTransportArgs, TelnetTransport
     t = TelnetTransport(_targs(), PluginTransportArgs())
     t.socket = _Sock(list(chunks))
-    data = b""
+    data, parts = b"", []
     for _ in range(len(chunks) + 3):
-        data += t.read()
+        parts.append(t.read())
+        data += parts[-1]
         if t._eof or not t.socket.sock.chunks:
             if not t.socket.sock.chunks and not t._eof:
                 continue
             break
-    return data, list(t.socket.sock.sent)
+    return data, list(t.socket.sock.sent), parts
 
 
 class _Reader:
@@ -116,12 +117,13 @@ async def run_async(chunks):
     from scrapli.transport.plugins.asynctelnet.transport import AsynctelnetTransport, PluginTransportArgs
     t = AsynctelnetTransport(_targs(), PluginTransportArgs())
     t.stdout, t.stdin = _Reader(list(chunks)), _Writer()
-    data = b""
+    data, parts = b"", []
     for _ in range(len(chunks) + 3):
-        data += await t.read()
+        parts.append(await t.read())
+        data += parts[-1]
         if t._eof:
             break
-    return data, list(t.stdin.sent)
+    return data, list(t.stdin.sent), parts
 
 
 # ---------- generators
@@ -277,7 +279,7 @@ def run(tier, seed):
             for stack, r, ml in (("sync", sres, mout[2 * idx]), ("async", a, mout[2 * idx + 1])):
                 if r is None or r[0] == "EXC":
                     continue
-                got = f"{hexs(r[0])} {hexl(r[1])}"
+                got = f"{hexs(r[0])} {hexl(r[1])} R={hexl(r[2])}"      # data, replies, and the result of every single read() call
                 if got != ml:
                     # outside the property's quantifier the ORACLE does not apply, but the model must still say what the code does
                     ck.disagree(f"Telnet model vs {stack} transport" + ("" if indom else " (stream outside the quantifier)"), case, f"impl={got} model={ml}")
